@@ -8,7 +8,9 @@
 (* Config: Mode = "depth"   histories of <= MaxOps operations over Small     *)
 (*         Mode = "breadth" a prefix from Prefixes, then ONE operation of    *)
 (*                          Big (every path of depth <= 3 x every kind)      *)
-(*         Mode = "sim"     like depth over Big (for -simulate)              *)
+(*         Mode = "given"   the histories in given.json (seeded random ones   *)
+(*                          over Big, written by the harness); operations the *)
+(*                          statement leaves open in their state are skipped  *)
 EXTENDS JqHeap
 CONSTANTS Mode, MaxOps, Wide
 
@@ -108,6 +110,11 @@ MkLit(sem, st, r) ==
                   s2 == GAlloc(s1, [k |-> "slots", s |-> <<Len(s1.heap) - 1, Len(s1.heap)>>])
               IN [st |-> s2, val |-> GHdr(Len(s2.heap), 2, 2)]
 
+\* the null a padding evaluation of the left side left behind is an ordinary target of the store
+Despec(old, new) ==
+  [new EXCEPT !.heap = [i \in 1..Len(new.heap) |->
+      IF i > Len(old.heap) /\ new.heap[i].k = "cell" /\ new.heap[i].v = SpecNull THEN [k |-> "cell", v |-> Null] ELSE new.heap[i]]]
+
 \* a read that goes through an unset variable: the value (null) is fixed, what
 \* becomes of the variable is not (the pinned code turns it into a container)
 ThroughUnset(st, p) == p.sels # <<>> /\ st.env[p.base].t = "unset"
@@ -123,9 +130,15 @@ LoopFrom(sem, st, elems, i, f) ==
 Step(sem, st, op) ==
   CASE op.kind = "set" ->
          IF op.r.r = "path" THEN
-            LET rd == RdP(sem, st, op.r.p) IN
-            IF rd.status # "ok" THEN rd
-            ELSE IF sem # "I" /\ rd.st.taint > st.taint THEN R3(st, Missing, "wild")   \* both sides evaluated before the store
+            \* the pinned code evaluates the left side first, and (with padding reads) that already
+            \* pads the array, which the right side then sees: y[2] = y[-3]
+            LET lt == IF sem = "G1" THEN GReadPath(st, op.p, TRUE) ELSE [st |-> st, status |-> "ok"]
+                st1 == IF sem = "G1" /\ lt.status = "ok" THEN Despec(st, lt.st) ELSE st
+                rd == RdP(sem, st1, op.r.p)
+            IN
+            IF lt.status # "ok" THEN R3(st, Missing, lt.status)
+            ELSE IF rd.status # "ok" THEN rd
+            ELSE IF sem # "I" /\ rd.st.taint > st1.taint THEN R3(st, Missing, "wild")   \* both sides evaluated before the store
             ELSE IF rd.res.t = "unset" THEN R3(st, Missing, "open")
             ELSE AsP(sem, rd.st, op.p, GCopy(rd.res))
          ELSE LET m == MkLit(sem, st, op.r) IN AsP(sem, m.st, op.p, m.val)
@@ -165,13 +178,6 @@ ReadPaths(op) == CASE op.kind = "set" -> IF op.r.r = "path" THEN {op.r.p} ELSE {
                    [] OTHER -> {}
 SkipOf(st, op) == {p.base : p \in {q \in ReadPaths(op) : ThroughUnset(st, q)}}
 
-\* inserting a container below itself would create a cycle (rendering cycles is C17's / C04's)
-MakesCycle(st, op) ==
-  /\ op.kind = "set" /\ op.r.r = "path" /\ op.p.sels # <<>>
-  /\ LET v == ReadPath(st, op.r.p)
-         par == ReadFrom(st, st.env[op.p.base], SubSeq(op.p.sels, 1, Len(op.p.sels) - 1))
-     IN IsCont(v) /\ IsCont(par) /\ par.id \in ReachFrom(st, v, Fuel)
-
 Observe(sem, st) == [n \in ObsNames |-> TreeOf(sem, st, st.env[n])]
 ResTree(sem, st, res) == IF res.t = "missing" THEN Null ELSE TreeOf(sem, st, res)
 
@@ -193,6 +199,13 @@ Deepest(st, p, n) ==
   IF n < 0 THEN [n |-> -1, v |-> Unset]
   ELSE LET v == ReadFrom(st, st.env[p.base], SubSeq(p.sels, 1, n)) IN
        IF IsCont(v) THEN [n |-> n, v |-> v] ELSE Deepest(st, p, n - 1)
+
+\* inserting a container below itself would create a cycle (rendering cycles is C17's / C04's)
+MakesCycle(st, op) ==
+  /\ op.kind = "set" /\ op.r.r = "path" /\ op.p.sels # <<>>
+  /\ LET v == ReadPath(st, op.r.p)
+         d == Deepest(st, op.p, Len(op.p.sels) - 1)
+     IN IsCont(v) /\ d.n >= 0 /\ d.v.id \in ReachFrom(st, v, Fuel)
 
 \* frame condition of a successful store at p: of the containers that existed
 \* before, only the deepest existing one on the path changes, and only at the
@@ -243,7 +256,11 @@ StepLaws(st, op, r) ==
   IN
   V("frame", okset /\ ~FrameLaw(IF isLit THEN lit.st ELSE st, st2, op.p))
   \cup V("readback", okset /\ ReadPath(st2, op.p) # (IF isLit THEN lit.val ELSE ReadPath(st, op.r.p)))
-  \cup V("alias", okset /\ ~isLit /\ IsCont(ReadPath(st, op.r.p)) /\ ReadPath(st2, op.r.p) # ReadPath(st2, op.p))
+  \cup V("alias", r.status = "ok" /\ \E a, b \in ObsNames :
+                   /\ a # b /\ IsCont(st.env[a]) /\ st.env[a] = st.env[b]
+                   /\ ~(op.kind = "set" /\ op.p.sels = <<>> /\ op.p.base \in {a, b})
+                   /\ ~(op.kind \in UpdKinds /\ op.p.sels = <<>> /\ op.p.base \in {a, b})
+                   /\ Tree(st2, st2.env[a], Fuel) # Tree(st2, st2.env[b], Fuel))
   \cup V("readpure", op.kind = "read" /\ st2 # st)
   \cup V("tree", okset /\ op.r.r \in {"num", "str"} /\ NoSharing(st)
                  /\ RawTree(st2, op.p.base) # TSub(RawTree(st, op.p.base), op.p.sels, lit.val))
@@ -259,18 +276,23 @@ StepLaws(st, op, r) ==
   \cup V("updframe", r.status = "ok" /\ op.kind \in UpdKinds /\ ~FrameLaw(st, st2, op.p))
 
 -----------------------------------------------------------------------------
-VARIABLES hist, cur, gst, out, fin, law
-vars == <<hist, cur, gst, out, fin, law>>
+VARIABLES hist, cur, gst, out, fin, law, idx
+vars == <<hist, cur, gst, out, fin, law, idx>>
 
 Alphabet(pos) ==
   CASE Mode = "depth" -> Small
-    [] Mode = "breadth" -> Big
     [] OTHER -> Big
 
 \* expectation of one step under one semantics
 Expect(sem, status, st, res) ==
   IF status \in {"wild", "dead", "error"} THEN [st |-> status]
   ELSE [st |-> "ok", res |-> ResTree(sem, st, res), vars |-> Observe(sem, st)]
+
+\* deviation `preinc-missing-index`: the pinned code yields null instead of the new value for a
+\* prefix ++/-- whose target is an index of an array that does not exist yet (y.k[0] with y.k missing)
+PreMissingIndex(st, op) ==
+  /\ op.kind \in {"preinc", "predec"} /\ Len(op.p.sels) >= 2 /\ op.p.sels[Len(op.p.sels)].s = "idx"
+  /\ ReadFrom(st, st.env[op.p.base], Prefix(op.p.sels)).t = "missing"
 
 \* apply op to all three semantics
 Apply(h, c, g, o, op) ==
@@ -287,7 +309,7 @@ Apply(h, c, g, o, op) ==
   IN [hist |-> Append(h, op),
       cur |-> [s \in Sems |-> CASE s = "I" -> rI.st [] s = "G0" -> r0.st [] OTHER -> r1.st],
       gst |-> [s \in Sems |-> CASE s = "I" -> rI.status [] s = "G0" -> r0.status [] OTHER -> r1.status],
-      out |-> Append(o, [exp |-> eI, skip |-> skip,
+      out |-> Append(o, [exp |-> eI, skip |-> skip, pre |-> PreMissingIndex(c["I"], op),
                          dev |-> [d \in devs |-> IF d = "g0" THEN e0 ELSE e1],
                          taint |-> [g0 |-> r0.st.taint > 0, g1 |-> r1.st.taint > 0]]),
       fin |-> (rI.status # "ok" \/ skip # {}),
@@ -301,11 +323,33 @@ Run(s, ops) == IF ops = <<>> THEN s ELSE Run(Apply(s.hist, s.cur, s.gst, s.out, 
 Start == [hist |-> <<>>, cur |-> [s \in Sems |-> IF s = "I" THEN InitI ELSE InitG], gst |-> [s \in Sems |-> "ok"],
           out |-> <<>>, fin |-> FALSE, law |-> {}]
 
-Init == \E pre \in (IF Mode = "breadth" THEN Prefixes ELSE {<<>>}) :
-          LET s == Run(Start, pre) IN
-          /\ hist = s.hist /\ cur = s.cur /\ gst = s.gst /\ out = s.out /\ fin = s.fin /\ law = s.law
+\* run a given history, skipping what is not enabled, stopping when the history is over
+RECURSIVE RunGiven(_, _)
+RunGiven(s, ops) ==
+  IF ops = <<>> \/ s.fin THEN s
+  ELSE IF ~Enabled(s.cur, Head(ops)) THEN RunGiven(s, Tail(ops))
+  ELSE LET t == Apply(s.hist, s.cur, s.gst, s.out, Head(ops))
+       IN RunGiven([t EXCEPT !.law = @ \cup s.law], Tail(ops))
+Given == IF Mode = "given" THEN JsonDeserialize("given.json") ELSE <<>>
 
-Next == /\ ~fin
+Init == IF Mode = "given"
+        THEN /\ idx \in 1..Len(Given)
+             /\ hist = Start.hist /\ cur = Start.cur /\ gst = Start.gst /\ out = Start.out /\ fin = FALSE /\ law = {}
+        ELSE /\ idx = 0
+             /\ \E pre \in (IF Mode = "breadth" THEN Prefixes ELSE {<<>>}) :
+                  LET s == Run(Start, pre) IN
+                  /\ hist = s.hist /\ cur = s.cur /\ gst = s.gst /\ out = s.out /\ fin = s.fin /\ law = s.law
+
+NextGiven ==
+  /\ Mode = "given" /\ hist = <<>> /\ ~fin
+  /\ LET s == RunGiven(Start, Given[idx]) IN
+     /\ hist' = s.hist /\ cur' = s.cur /\ gst' = s.gst /\ out' = s.out /\ law' = s.law /\ fin' = TRUE
+  /\ UNCHANGED idx
+
+NextOp ==
+        /\ Mode # "given"
+        /\ UNCHANGED idx
+        /\ ~fin
         /\ (Mode = "breadth" \/ Len(hist) < MaxOps)
         /\ \E op \in Alphabet(Len(hist) + 1) :
              /\ Enabled(cur, op)
@@ -313,6 +357,18 @@ Next == /\ ~fin
                 /\ hist' = s.hist /\ cur' = s.cur /\ gst' = s.gst /\ out' = s.out /\ law' = s.law
                 /\ fin' = (s.fin \/ Mode = "breadth")
 
+Next == NextGiven \/ NextOp
 Laws == law = {}
-Vec == hist # <<>> => Emit([ops |-> hist, steps |-> out])
+
+\* compact JSON form of a tree: number, string, boolean, array, {"o": members}, "~null", "~unset"
+RECURSIVE Compact(_)
+Compact(tr) ==
+  CASE tr.t = "num" -> tr.n [] tr.t = "str" -> tr.s [] tr.t = "bool" -> tr.b
+    [] tr.t = "arr" -> [i \in 1..Len(tr.items) |-> Compact(tr.items[i])]
+    [] tr.t = "obj" -> [o |-> [k \in DOMAIN tr.m |-> Compact(tr.m[k])]]
+    [] OTHER -> "~" \o tr.t
+CompactExp(e) == IF e.st # "ok" THEN e ELSE [st |-> "ok", res |-> Compact(e.res), vars |-> [n \in ObsNames |-> Compact(e.vars[n])]]
+CompactStep(s) == [exp |-> CompactExp(s.exp), skip |-> s.skip, taint |-> s.taint, pre |-> s.pre,
+                   dev |-> [d \in DOMAIN s.dev |-> CompactExp(s.dev[d])]]
+Vec == hist # <<>> => Emit([ops |-> hist, steps |-> [i \in 1..Len(out) |-> CompactStep(out[i])]])
 =============================================================================
